@@ -192,6 +192,19 @@ class Case:
         return c
 
 
+def rebase(case, cwd):
+    """files of a stored case live in the scratch directory of the run that wrote it: move them here"""
+    ren = {name: os.path.join(cwd, os.path.basename(name)) for name in case.files}
+    def sub(t):
+        for a, b in ren.items():
+            t = t.replace(a, b)
+        return t
+    case.files = {ren[k]: v for k, v in case.files.items()}
+    case.items = [(k, sub(t)) for k, t in case.items]
+    case.opts = [(f, sub(a)) for f, a in case.opts]
+    return case
+
+
 def write_opts(rng, items):
     """items -> option list: each item as its own option or merged (comma) into the previous option of the same flag"""
     opts = []
@@ -491,26 +504,38 @@ def split_top(expr):
     return [w for w in out if w]
 
 
-def evaluate(ctx, cli, oracle, case, d2):
-    """-> (impl, model, spec) for one case"""
+def regex_pairs(case):
+    pats = patterns_of(case)
+    return [(p, h) for p in pats for h in candidate_names(case)] + [(p, "") for p in pats]
+
+
+def model_spec(ctx, oracle, cases, d2):
+    """model and specification answers for a batch of cases -> [(model, spec, bad patterns)]"""
+    oracle.ask([pr for c in cases for pr in regex_pairs(c)])
+    texts, bads = [], []
+    for c in cases:
+        answers = oracle.ask(regex_pairs(c))
+        bad = sorted(set(p for (p, h), v in answers.items() if v == "E"))
+        table = {k: v == "1" for k, v in answers.items() if v in "01"}
+        texts.append("".join(l + "\n" for l in case_text(c, table, bad, d2)))
+        bads.append(bad)
+    ms = [a for a in ctx.model("hl", "".join(texts), args=["xcl"], timeout=1800) if a not in (".", "")]
+    ss = [a for a in ctx.model("hl", "".join(texts), args=["xspec"], timeout=1800) if a not in (".", "")]
+    if len(ms) != len(cases) or len(ss) != len(cases):
+        raise RuntimeError("model/spec engines answered %d/%d cases of %d" % (len(ms), len(ss), len(cases)))
+    return list(zip(ms, ss, bads))
+
+
+def write_files(case):
     for name, exprs in case.files.items():
         with open(name, "w") as f:
             f.write("".join(e + "\n" for e in exprs))
-    pats = patterns_of(case)
-    pairs = [(p, h) for p in pats for h in candidate_names(case)] + [(p, "") for p in pats]
-    answers = oracle.ask(pairs)
-    bad = sorted(set(p for (p, h), v in answers.items() if v == "E"))
-    table = {k: v == "1" for k, v in answers.items() if v in "01"}
-    lines = case_text(case, table, bad, d2)
-    text = "".join(l + "\n" for l in lines)
-    m = ctx.model("hl", text, args=["xcl"])[-1]
-    s = ctx.model("hl", text, args=["xspec"])[-1]
+
+
+def judge(ctx, cli, oracle, case, d2, dist, shrinking=False, pre=None):
+    write_files(case)
+    m, s, bad = pre if pre is not None else model_spec(ctx, oracle, [case], d2)[0]
     impl = run_real(cli, case)
-    return impl, m, s, bad
-
-
-def judge(ctx, cli, oracle, case, d2, dist, shrinking=False):
-    impl, m, s, bad = evaluate(ctx, cli, oracle, case, d2)
     ikind, ihosts = norm(impl[0], impl[1])
     mkind, mhosts = parse_model(m)
     tags = set()
@@ -640,12 +665,12 @@ def run(ctx):
             ctx.broken.append(("C-BROKEN", "D2 probe", "pdsh neither spins nor answers on a 4200-byte exclusion file"))
             d2 = False
         if ctx.replay:
-            cases = [Case.from_json(json.load(open(ctx.replay))["case"])]
+            cases = [rebase(Case.from_json(json.load(open(ctx.replay))["case"]), cli.cwd)]
             profs = ["replay"]
         else:
             cases, profs = [], []
             for c in load_corpus():
-                cases.append(c)
+                cases.append(rebase(c, cli.cwd))
                 profs.append("corpus")
             n = 260 if ctx.quick() else 5000
             profiles = ["free", "free", "free", "dup", "dup", "regex", "regex", "2br", "big", "span", "firstrange"]
@@ -658,11 +683,16 @@ def run(ctx):
                 cases.append(gen_case(rng, "xfile", cli.cwd))
                 profs.append("xfile")
         distinct = set()
-        for case, prof in zip(cases, profs):
+        try:
+            pres = model_spec(ctx, oracle, cases, d2)
+        except Exception as e:     # noqa
+            ctx.broken.append(("C-BROKEN", "check machinery", repr(e)))
+            pres, cases = [], []
+        for case, prof, pre in zip(cases, profs, pres):
             cov["evaluations"] += 1
             dist["profiles"][prof] = dist["profiles"].get(prof, 0) + 1
             try:
-                judge(ctx, cli, oracle, case, d2, dist)
+                judge(ctx, cli, oracle, case, d2, dist, pre=pre)
             except Exception as e:     # noqa
                 ctx.broken.append(("C-BROKEN", "check machinery", "%r on %s" % (e, json.dumps(case.to_json())[:600])))
                 break
